@@ -28,7 +28,12 @@ type BlockHeaderSubscriber interface {
 
 type liquidBlockHeaderSubscriber struct {
 	txObservers []TXObserver
-	mu          sync.Mutex
+	// mu protects txObservers.
+	mu sync.Mutex
+	// updateMu serializes Update. The observer callbacks re-enter the swap
+	// state machines, which may call Register while holding their own lock;
+	// mu is therefore never held while a callback runs.
+	updateMu sync.Mutex
 }
 
 func NewLiquidBlockHeaderSubscriber() *liquidBlockHeaderSubscriber {
@@ -44,6 +49,8 @@ func (h *liquidBlockHeaderSubscriber) Register(tx TXObserver) {
 }
 
 func (h *liquidBlockHeaderSubscriber) Deregister(o TXObserver) {
+	h.mu.Lock()
+	defer h.mu.Unlock()
 	newObservers := make([]TXObserver, 0, len(h.txObservers))
 	for _, observer := range h.txObservers {
 		if observer.GetSwapID() != o.GetSwapID() {
@@ -54,9 +61,15 @@ func (h *liquidBlockHeaderSubscriber) Deregister(o TXObserver) {
 }
 
 func (h *liquidBlockHeaderSubscriber) Update(ctx context.Context, blockHeight BlockHeight) error {
+	h.updateMu.Lock()
+	defer h.updateMu.Unlock()
+
 	h.mu.Lock()
-	defer h.mu.Unlock()
-	for _, observer := range h.txObservers {
+	observers := make([]TXObserver, len(h.txObservers))
+	copy(observers, h.txObservers)
+	h.mu.Unlock()
+
+	for _, observer := range observers {
 		callbacked, err := observer.Callback(ctx, blockHeight)
 		if callbacked {
 			if err == nil || errors.Is(err, swap.ErrSwapDoesNotExist) {
